@@ -6,7 +6,7 @@ from .common import *
 
 # token indices (0 = op) holding hex payloads / payload lists, per op: used by the shrinker
 PAYLOAD = {"kg": [2], "mg": [3], "kmg": [3], "oligo": [3], "covrow": [6], "cgr": [2], "ocgr": [4],
-           "ofile": [10], "osched": [6], "cgrfile": [5], "ocgrfile": [7], "ctr": [6], "cov": [9, 10], "s2m": [5], "m2s": [5]}
+           "ofile": [10], "osched": [6], "cgrfile": [5], "ocgrfile": [7], "ctr": [6], "cov": [9, 10], "s2m": [5], "m2s": [5], "read": []}
 
 BASE_TRUSTED = [
     "Coq 8.16.1 kernel incl. vm_compute (no native_compute, no kernel flags, full .vo build)",
@@ -499,6 +499,67 @@ def gen_C12_files(r, n):
     return cases
 
 
+# ---------------------------------------------------------------- C06
+SUFFIXES = [(".fa", "fa"), (".fasta", "fa"), (".fna", "fa"), (".fq", "fq"), (".fastq", "fq")]
+IDCHARS = b"abcdefghijklmnopqrstuvwxyzABCDEFGHIJKLMNOPQRSTUVWXYZ0123456789_.:|/=+-#"
+SEQCHARS = b"ACGTacgtUuNnRYKM-*."
+
+def gen_C06(r, tier):
+    n = {"quick": 1500, "thorough": 30000}[tier]
+    cases = []
+    # format inference: every documented suffix form, with and without .gz, plus names that must not be recognised
+    for suf, f in SUFFIXES:
+        for gz in ("", ".gz"):
+            cases.append("read x%s%s %s %s %s" % (suf, gz, f, hx(b">a\nAC\n" if f == "fa" else b"@a\nAC\n+\nII\n"), hx(b"a") + ":" + hx(b"AC")))
+    for bad in ("x.txt", "x.fa.bz2", "x.fagz", "xfa", "x.fq.gzip", "x.FA"):
+        cases.append("read %s none %s _" % (bad, hx(b">a\nAC\n")))
+    cases.append("read x.fa.gz.gz fa %s %s" % (hx(b">a\nAC\n"), hx(b"a") + ":" + hx(b"AC")))     # trim_end_matches strips repeatedly
+    for _ in range(n):
+        fq = r.below(3) == 0
+        nrec = r.pick([0, 1, 2]) if r.below(6) == 0 else r.below(25)
+        eol = b"\r\n" if r.below(4) == 0 else b"\n"
+        recs = []; text = bytearray()
+        for i in range(nrec):
+            rid = bytes(r.choices(IDCHARS, k=1 + r.below(12)))
+            if fq and rid[:1] == b"@" : rid = b"r" + rid
+            desc = b""
+            if r.below(3) == 0:
+                desc = r.pick([b" ", b"\t"] if not fq else [b" "]) + bytes(r.choices(IDCHARS + b" ", k=1 + r.below(15))).strip() + b"x"
+            L = (0 if (r.below(8) == 0 and not fq) else 1 + r.pick([r.below(10), r.below(200), r.below(3000) if r.below(20) == 0 else r.below(100)]))
+            seq = bytes(r.choices(SEQCHARS, k=L))
+            recs.append((rid, seq))
+            if fq:
+                # single-line or wrapped sequence; as many quality lines as sequence lines; quality may start with @ or +
+                wrap = r.pick([0, 0, 1, 7, 60]); chunks = [seq] if wrap == 0 else [seq[j:j + wrap] for j in range(0, L, wrap)]
+                text += b"@" + rid + desc + eol
+                for c in chunks: text += c + eol
+                text += b"+" + (rid if r.below(4) == 0 else b"") + eol
+                for c in chunks:
+                    q = bytearray(r.choices(b"!#$%&@+IJK5", k=len(c)))
+                    if q and r.below(5) == 0: q[0] = r.pick(b"@+")
+                    text += bytes(q) + eol
+            else:
+                wrap = r.pick([0, 0, 1, 7, 60, 80, 1 + r.below(100)])
+                text += b">" + rid + desc + eol
+                if L:
+                    chunks = [seq] if wrap == 0 else [seq[j:j + wrap] for j in range(0, L, wrap)]
+                    for c in chunks: text += c + eol
+                elif r.below(2): text += eol                      # an empty sequence line
+        text = bytes(text)
+        if text and r.below(4) == 0: text = text[:-len(eol)]         # no final line terminator
+        suf, f = r.pick([x for x in SUFFIXES if x[1] == ("fq" if fq else "fa")])
+        gz = r.below(3) == 0
+        if gz and text:
+            cuts = sorted(set(r.below(len(text) + 1) for _ in range(r.pick([0, 1, 2, 5]))))
+            members = [text[a:b] for a, b in zip([0] + cuts, cuts + [len(text)])]
+            if r.below(3) == 0: members.append(b"")              # empty final member (bgzip EOF block)
+        else:
+            members = [text]
+        exp = ",".join(hx(i) + ":" + hx(s_) for i, s_ in recs) or "_"
+        cases.append("read x%s%s %s %s %s" % (suf, ".gz" if gz else "", f, hxlist(members), exp))
+    return cases
+
+
 PROPS = {
     "C01": dict(gen=gen_C01, needs=["harness"],
                 rule="corpus, then the exhaustive alphabet sweep (every byte 4..255 alone at k=1 and inside AC?GT at k=2), then seeded structured sequences (per-case ambiguity rate 0/1/5/15 %, k in 1..=31 with extra weight on 1,15,16,17,30,31, boundary lengths 0,k-1,k,k+1,2k,3k+1); thorough adds every string over {A,c,G,u,N,0xFF} up to length 7 for k 1..4; non-trivial = the iterator yields at least one item; distinct = distinct case lines",
@@ -527,6 +588,11 @@ PROPS = {
                 rule="file level: seeded record lists (0..40 records, empty records, all-ambiguous records) x k 1..5 x threads {default,1..16} x memory limit {1,50,100,1000,4 GiB} x header x delimiters {comma,tab,space,empty,'::',' | ',';;;;'} x writer {auto,mmap,batch} x container {FASTA, wrapped FASTA, CRLF FASTA, FASTQ, gzip, multi-member gzip, stored gzip}; every record list is run twice with different settings and the bytes must agree; then controlled-scheduler replays on the mapped writer (W<=4 workers, R<=6 records, random schedule prefix + round-robin tail): logged TAKE/WRITE/EXIT trace, write offsets and file bytes must equal the Coq schedule model's; thorough enumerates every schedule word for (W,R) in {(2,2),(2,3),(3,3),(2,4)}; non-trivial = non-empty output",
                 assumptions=["Mutex-protected reader and one write_at per row are atomic steps (below hook granularity is not modelled)",
                              "rayon's par_iter().map().collect() preserves order (batch writer)"]),
+    "C06": dict(gen=gen_C06, needs=["harness"], sample_limit={"quick": 60, "thorough": 200}, sample_maxlen=1500,
+                rule="seeded well-formed record lists (ids over a wide printable alphabet, optional space/tab descriptions, lengths 0..3000, empty FASTA records) printed as FASTA (wrap widths none,1,7,60,80,random; LF or CRLF; with or without final terminator; optional empty sequence line) or FASTQ (single-line or wrapped, '+' line with or without id, quality lines that may start with @ or +), plain or gzip split at random byte positions into 1..6 members (some stored, some deflated, optional empty final member); every documented suffix form with and without .gz and names that must not be recognised; the implementation's records, numbering and statistics are compared with the line-parser model and with the generating list itself; non-trivial = at least one record",
+                nontrivial=lambda c, o: "|" in o and o.split("|")[1] != "",
+                assumptions=["the DEFLATE codec itself is not modelled (only the member structure)", "bio 2.0.3's parsers are third-party code, modelled from their source and validated here",
+                             "non-UTF-8 input is outside 'well-formed' and never generated"]),
     "C07": dict(gen=gen_C07, needs=["harness"], sample_limit={"quick": 32, "thorough": 96}, sample_maxlen=700,
                 rule="file level: seeded record lists (incl. highly repetitive ones) x k {1,2,3,5,10,15,21,31} x threads x memory ceilings from 6 GB down to 1e-8 GB (one chunk to dozens of chunks and partitions) x acgt x container; the sorted lines of kmers.counts and the number of surviving temp files are compared with the model (partitioned counting + merge) and the spec (multiset of canonical k-mers); non-trivial = at least one k-mer counted",
                 assumptions=["scc entry().and_modify().or_insert() and AtomicU64 operations are atomic steps", "total windows < 2^32 (u32 counts)"]),
